@@ -24,6 +24,7 @@ import EPV.Lemmas.MapArrayRefine
 import EPV.Lemmas.MapArrayObserve
 import EPV.Lemmas.MapArrayClosed
 import EPV.Lemmas.MapArrayHof
+import EPV.Lemmas.MapArrayLookup
 namespace EPV.C15
 open EPV.MapArray
 
@@ -399,6 +400,46 @@ theorem lookup_bool_index_differs :
     (run (pyDialect false) ⟨[], []⟩ ops).env[2]? = some [.atom (.int 7)] ∧
     (step Spec.specDialect (run Spec.specDialect ⟨[], []⟩ (ops.take 2)) (.lookup 1 (some [.bool true]))).2
       = some .XPTY0004 := by decide
+
+/-! ## lookups over sequences, call-site reuse -/
+
+/-- **lookup_seq_eq_spec**: `$v?(K)` with a left operand of any length and any list of keys is, for
+the code and for the spec interpreter alike, XPath 3.1 §3.11.3.2 "for each item of E, for each key
+of K": the concatenation in that order of the single lookups `$e($k)`; the first failing pair, or
+the first item that is neither a map nor an array (XPTY0004), decides the error.  (A key iterator
+consumed by the first item, or a loop over keys outside the loop over items, would violate it.) -/
+theorem lookup_seq_eq_spec (d : Dialect) (st : St) (v : Nat) (K : List Key) :
+    evalOp d st (.lookup v (some K)) =
+      (Spec.lookupSeq d st.store (st.var v) K).map fun r => (st.store, r) :=
+  lookup_seq_eq_spec' d st v K
+
+/-- test on literals: two maps and an array, keys (1, 'a') -/
+example :
+    let s : Store := [.map [(.int 1, [.atom (.str [120])]), (.str [97], [.atom (.int 7)])],
+                      .map [(.dec 1, [.atom (.str [121])])], .arr [[.atom (.int 5)], [.atom (.int 6)]]]
+    Spec.lookupSeq (pyDialect false) s [.ref 0, .ref 1] [.int 1, .str [97]]
+      = .ok [.atom (.str [120]), .atom (.int 7), .atom (.str [121])] ∧
+    Spec.lookupSeq (pyDialect false) s [.ref 2, .ref 0] [.int 2, .int 1]
+      = .ok [.atom (.int 6), .atom (.int 5), .atom (.str [120])] ∧
+    Spec.lookupSeq (pyDialect false) s [.ref 0, .ref 2] [.int 3] = .error .FOAY0001 ∧
+    Spec.lookupSeq (pyDialect false) s [.ref 0, .atom (.int 1)] [] = .error .XPTY0004 := by decide
+
+/-- **call_site_reuse_eq_map**: read-only call sites (map:get/contains/size/keys, array:get/head/
+size, `?`) on existing variables, evaluated again after *any* further operations of a copying run,
+give the list of the results of the single calls made before — nothing of an evaluation is kept
+anywhere (the model has no place to keep it; the shared-token mode of the correspondence checks
+the same of the real tokens). -/
+theorem call_site_reuse_eq_map (d : Dialect) (hd : d.alias = false) (st : St) (hst : StOK st)
+    (calls : List Op)
+    (hcalls : ∀ op ∈ calls, ∃ vars, readVars op = some vars ∧ ∀ i ∈ vars, i < st.env.length)
+    (between : List Op) :
+    calls.map (fun op => (evalOp d (run d st between) op).map (·.2)) =
+      calls.map (fun op => (evalOp d st op).map (·.2)) := by
+  apply List.map_congr_left
+  intro op hop
+  obtain ⟨vars, hv, hvars⟩ := hcalls op hop
+  have hp := run_prefix d hd st between
+  exact read_op_stable d hst hp.1 hp.2 op vars hv hvars
 
 /-! ## deep-equal on atomic values -/
 
